@@ -683,4 +683,5 @@ func (e *codecEnv) runDirectedPrograms(rng *rand.Rand, emit bool) {
 	e.prog = 460
 	e.runUintSizeTable(rng2, emit)
 	e.st.Programs++
+	e.runStorableSlabPrograms(rng, emit) // codecstorslab.go: size limit and inlined-container refusal of the StorableSlab
 }
